@@ -823,6 +823,18 @@ impl Client {
     }
 }
 
+/// Verification hooks (C28): crate-visible wrappers around the private report history.
+#[cfg(feature = "verif-hooks")]
+impl Client {
+    pub(crate) fn verif_add_report_history_and_set_preferred_relay(&mut self, r: &mut Report) {
+        self.add_report_history_and_set_preferred_relay(r)
+    }
+
+    pub(crate) fn verif_prev_len(&self) -> usize {
+        self.reports.prev.len()
+    }
+}
+
 #[cfg(not(wasm_browser))]
 async fn run_probe_v4(
     relay: Arc<RelayConfig>,
